@@ -20,6 +20,7 @@ from fvmon import kernels, gen
 from fvmon.observe import content, unbox
 
 SPEC = {
+    "anchors": ["fibertree.core.metrics:Metrics.addUse", "fibertree.core.metrics:Metrics.registerRank", "fibertree.core.metrics:Metrics._startTrace", "fibertree.core.metrics:Metrics.incIter", "fibertree.core.metrics:Metrics.endIter", "fibertree.core.metrics:Metrics._writeTrace", "fibertree.core.metrics:Metrics.consumeTrace", "fibertree.core.metrics:Metrics.associateShape", "fibertree.core.iterators:iterRange", "fibertree.core.iterators:__and__", "fibertree.core.iterators:__lshift__", "fibertree.core.fiber:Fiber.project"],
     "rule": ("case = one kernel from the C06 family restricted to at most two operands per loop level (two-finger "
              "style), any loop order, optional tiling, operands canonical or holding explicit defaults, optional "
              "U-format ranks, output empty or pre-populated (so populates are appending, revisiting or inserting), "
